@@ -131,6 +131,23 @@ def check_cases(ctx, cases):
                     ctx.fail(case, "a node's id/mode is not git's (blob of bytes / link text / empty for special; 100755 iff an execute bit; trees incl. empty ones)", "node-id-not-git", {"paths": bad[:5], "got": [obs.get(p) for p in bad[:3]], "want": [want[p] for p in bad[:3]]})
                 if str(d.swhid()) != "swh:1:dir:" + want[""][1]:
                     ctx.fail(case, "root swhid() does not carry the git tree id", "root-swhid")
+                # a spelling of the same directory that goes through a symbolic link and back up with "..":
+                # the operating system resolves the link first, so textual normalisation is not enough
+                if ci % 3 == 0:
+                    base_ = os.path.dirname(root)
+                    os.makedirs(os.path.join(base_, b"d1", b"d2"), exist_ok=True)
+                    ln = os.path.join(base_, b"ln")
+                    if not os.path.lexists(ln):
+                        os.symlink(os.path.join(b"d1", b"d2"), ln)
+                    via = os.path.join(base_, b"ln", b"..", b"..", os.path.basename(root)) + b"/" * case["slashes"]
+                    try:
+                        with ctx.time_limit(60):
+                            dv = Directory.from_disk(path=via)
+                        ctx.count("via-symlink-dotdot")
+                        if dv.hash != d.hash:
+                            ctx.fail(case, "the same directory reached through `link/../..` gets another id", "order-or-spelling-dependent:symlink-dotdot", {"impl": dv.hash.hex(), "want": d.hash.hex()})
+                    except (OSError, KeyError, ValueError, ImplementationHang) as e:
+                        ctx.fail(case, f"the same directory reached through `link/../..` cannot be read: {type(e).__name__}", "read-or-lookup-fails:symlink-dotdot")
                 # listing order and spelling must not matter (nor being watched through a progress callback)
                 seen_entries = []
                 with fs.shuffled_scandir(random.Random(case["listing_seed"] + 1)):
